@@ -218,6 +218,25 @@ def run(ctx):
 
 
 def check_cfg(ctx, fx, cfg):
+    check_response_slots(ctx, fx, cfg)
+    check_rest(ctx, fx, cfg)
+
+
+def check_response_slots(ctx, fx, cfg, RULE=None):
+    """R02.1 — every call-like site: one response slot per invocation, answered only from inside the payload with the
+    handler's result, awaited by the caller and nothing else, Ok only from that receiver. With RULE the findings are
+    reported under another property's rule id (shared with C04: a handled message's call returns Ok)."""
+    before_v, before_i = len(ctx.violations), len(ctx.instances)
+    _check_response_slots(ctx, fx, cfg)
+    if RULE:
+        for v in ctx.violations[before_v:]:
+            v["rule"] = RULE
+            v["key"] = "%s/%s/%s" % (ctx.prop, RULE, v["instance"])
+        for i in ctx.instances[before_i:]:
+            i["rule"] = RULE
+
+
+def _check_response_slots(ctx, fx, cfg):
     # R02.1
     n_slots = 0
     n_term = 0
@@ -304,6 +323,9 @@ def check_cfg(ctx, fx, cfg):
             ctx.require(good, "R02.1", inst + ":ok-from-receiver", "Ok(..) returned by a call must be the value received on this call's response channel", fn=f["def"], site=t["l"])
     ctx.floor("R02.1", "call-like sites with a response slot (%s)" % cfg, n_slots, 1)  # call and ping may share one slot-creating helper
     ctx.require(n_term == 1, "R02.1", "termination-channel-birth@" + cfg, "expected exactly one oneshot channel whose sender becomes the StopNotifier, found %d" % n_term, site="crate", detail=n_term)
+
+
+def check_rest(ctx, fx, cfg):
     # R02.2 / R02.3
     for f, kind in loops.find_loops(fx):
         up = f.get("upvars", [])
